@@ -3,7 +3,144 @@ package main
 import (
 	"fmt"
 	"go/token"
+	"go/types"
 )
+
+var sizes = types.SizesFor("gc", "amd64")
+
+// viewResolve follows a field/index path through type t starting at byte offset off.
+func (e *Engine) viewResolve(off *Term, t types.Type, path []PathEl) (*Term, types.Type, bool) {
+	for _, pe := range path {
+		switch u := t.Underlying().(type) {
+		case *types.Struct:
+			if pe.field < 0 || pe.field >= u.NumFields() {
+				return nil, nil, false
+			}
+			var fs []*types.Var
+			for i := 0; i < u.NumFields(); i++ {
+				fs = append(fs, u.Field(i))
+			}
+			offs := sizes.Offsetsof(fs)
+			off = e.b.Add(off, e.b.BV(64, uint64(offs[pe.field])))
+			t = u.Field(pe.field).Type()
+		case *types.Array:
+			if pe.field != -1 {
+				return nil, nil, false
+			}
+			sz := sizes.Sizeof(u.Elem())
+			off = e.b.Add(off, e.b.Bin(OpMul, pe.idx, e.b.BV(64, uint64(sz))))
+			t = u.Elem()
+		default:
+			return nil, nil, false
+		}
+	}
+	return off, t, true
+}
+
+// viewRead reads a value of type t from the byte array av at byte offset off (little endian).
+func (e *Engine) viewRead(av ArrayV, off *Term, t types.Type) Val {
+	switch u := t.Underlying().(type) {
+	case *types.Basic:
+		w := e.width(t)
+		if w <= 0 {
+			if w == 0 {
+				b0 := e.getPath(av, []PathEl{{field: -1, idx: off}})
+				if s, ok := b0.(Scalar); ok {
+					return Scalar{e.b.Not(e.b.Eq(s.t, e.b.BV(8, 0)))}
+				}
+			}
+			return Poison{"typed view of " + t.String()}
+		}
+		var r *Term
+		for k := 0; k < w/8; k++ {
+			bv := e.getPath(av, []PathEl{{field: -1, idx: e.b.Add(off, e.b.BV(64, uint64(k)))}})
+			s, ok := bv.(Scalar)
+			if !ok || s.t.w != 8 {
+				return Poison{"typed view over non-byte array"}
+			}
+			if r == nil {
+				r = s.t
+			} else {
+				r = e.b.Concat(s.t, r)
+			}
+		}
+		return Scalar{r}
+	case *types.Struct:
+		sv := StructV{f: make([]Val, u.NumFields())}
+		var fs []*types.Var
+		for i := 0; i < u.NumFields(); i++ {
+			fs = append(fs, u.Field(i))
+		}
+		offs := sizes.Offsetsof(fs)
+		for i := range sv.f {
+			sv.f[i] = e.viewRead(av, e.b.Add(off, e.b.BV(64, uint64(offs[i]))), u.Field(i).Type())
+		}
+		return sv
+	case *types.Array:
+		sz := sizes.Sizeof(u.Elem())
+		r := ArrayV{e: make([]Val, u.Len())}
+		for i := range r.e {
+			r.e[i] = e.viewRead(av, e.b.Add(off, e.b.BV(64, uint64(int64(i)*sz))), u.Elem())
+		}
+		return r
+	}
+	return Poison{"typed view of " + t.String()}
+}
+
+// viewWrite writes v of type t into the byte array at byte offset off.
+func (e *Engine) viewWrite(av ArrayV, off *Term, t types.Type, v Val) Val {
+	switch u := t.Underlying().(type) {
+	case *types.Basic:
+		s, ok := v.(Scalar)
+		if !ok {
+			return Poison{"typed view write of non-scalar"}
+		}
+		tt := s.t
+		if tt.w == 0 {
+			tt = e.b.BoolToBV(tt, 8)
+		}
+		var cur Val = av
+		for k := 0; k < tt.w/8; k++ {
+			cur = e.setPath(cur, []PathEl{{field: -1, idx: e.b.Add(off, e.b.BV(64, uint64(k)))}}, Scalar{e.b.Extract(tt, 8*k+7, 8*k)})
+		}
+		return cur
+	case *types.Struct:
+		sv, ok := v.(StructV)
+		if !ok {
+			return Poison{"typed view write: struct expected"}
+		}
+		var fs []*types.Var
+		for i := 0; i < u.NumFields(); i++ {
+			fs = append(fs, u.Field(i))
+		}
+		offs := sizes.Offsetsof(fs)
+		var cur Val = av
+		for i := range sv.f {
+			a, ok := cur.(ArrayV)
+			if !ok {
+				return cur
+			}
+			cur = e.viewWrite(a, e.b.Add(off, e.b.BV(64, uint64(offs[i]))), u.Field(i).Type(), sv.f[i])
+		}
+		return cur
+	case *types.Array:
+		arr, ok := v.(ArrayV)
+		if !ok {
+			return Poison{"typed view write: array expected"}
+		}
+		sz := sizes.Sizeof(u.Elem())
+		var cur Val = av
+		for i := range arr.e {
+			a, ok := cur.(ArrayV)
+			if !ok {
+				return cur
+			}
+			cur = e.viewWrite(a, e.b.Add(off, e.b.BV(64, uint64(int64(i)*sz))), u.Elem(), arr.e[i])
+		}
+		return cur
+	}
+	return Poison{"typed view write of " + t.String()}
+}
 
 type cell struct {
 	v     Val
@@ -62,6 +199,13 @@ func (e *Engine) getPath(v Val, path []PathEl) Val {
 	av, ok := v.(ArrayV)
 	if !ok {
 		return Poison{fmt.Sprintf("getPath: index into %T", v)}
+	}
+	if p.field == -3 {
+		off, t, ok := e.viewResolve(p.idx, p.typ, path[1:])
+		if !ok {
+			return Poison{"typed view: unsupported path"}
+		}
+		return e.viewRead(av, off, t)
 	}
 	if p.field == -2 {
 		sub := ArrayV{e: make([]Val, p.n)}
@@ -188,6 +332,13 @@ func (e *Engine) setPath(v Val, path []PathEl, nv Val) Val {
 	av, ok := v.(ArrayV)
 	if !ok {
 		return Poison{fmt.Sprintf("setPath: index into %T", v)}
+	}
+	if p.field == -3 {
+		off, t, ok := e.viewResolve(p.idx, p.typ, path[1:])
+		if !ok {
+			return Poison{"typed view: unsupported path"}
+		}
+		return e.viewWrite(av, off, t, nv)
 	}
 	if p.field == -2 {
 		sub := e.getPath(av, []PathEl{p})
